@@ -112,7 +112,7 @@ def mutate(rng, s):
 # ---- C15: documented equivalences; slots FN (function position) and CAP (capture operands)
 FNS = ["f", "g", "mod.fn"]
 CAPS = ["x", "y", "x as z", "x:@T", "x=1", "x='s'", "x=g(1, k=2)", "x~p(3)", "$x", "$x:@T", "#value", "#enter", "x as z:@T"]
-CTX = ["a", "b as c", "a:@T", "a=1", "$q", "g(y)", "g(y, z)", "a, b"]
+CTX = ["a", "g(y)", "b as c", "a=1", "a, g(y, z)", "a:@T", "$q", "g(y, z)", "a, b", "h(g(y))"]    # quick: the first five
 LAWS = [
     ("gt-vs-bang", lambda fn, cap, ctx: (f"{fn} > {cap}", f"{fn}(!{cap})")),
     ("dollar-cat", lambda fn, cap, ctx: (f"{fn}({ctx}) > $x:@T", f"{fn}({ctx}) > * as x:@T")),
@@ -216,7 +216,7 @@ def main():
     for law, mk in LAWS:
         for fn in FNS:
             for cap in CAPS:
-                for ctx in (CTX if big else CTX[:4]):
+                for ctx in (CTX if big else CTX[:5]):
                     l, r = mk(fn, cap, ctx)
                     key = (law, l, r)
                     if key in seen:
